@@ -27,6 +27,8 @@
 #define XV_LOOP_ASSUME(n) __CPROVER_assume(XV_INV_##n)
 #define XV_LOOP_STEP(n)   __CPROVER_assert((XV_INV_##n), "LOOPSTEP:" #n)
 #define XV_CUT_END()      __CPROVER_assume(0)
+/* Route D (goto-instrument --dfcc --apply-loop-contracts): the loop is kept and the unit supplies the clauses */
+#define XV_LOOP_CONTRACT(n) XV_LOOP_CONTRACT_##n
 
 /* memory orders as data */
 enum { mo_relaxed = 0, mo_consume = 1, mo_acquire = 2, mo_release = 3, mo_acq_rel = 4, mo_seq_cst = 5 };
